@@ -479,7 +479,8 @@ Fixpoint leave_rooms (sid ns : pv) (names : list pv) : M unit :=
 Definition basic_disconnect (sid ns : pv) : M unit :=
   m <~ getst ;;
   match aget ns (rooms m) with
-  | None => ret tt
+  | None => putst (set_cbs m (adel sid (cbs m)))     (* /repo 31cc120: the callbacks are released even if the
+                                                        namespace is gone (not reachable from server_disconnect) *)
   | Some nr =>
       let names := map fst (filter (fun p => match aget sid (snd p) with Some _ => true | None => false end) nr) in
       leave_rooms sid ns names >>
